@@ -147,6 +147,9 @@ func genNet(r *simrt.Rand) NetCfg {
 	if r.Bool(0.5) {
 		n.Late = []float64{0.01, 0.05}[r.Intn(2)]
 	}
+	if r.Bool(0.3) {
+		n.CutStream = 0.15
+	}
 	return n
 }
 
